@@ -12,6 +12,7 @@ import (
 	"strings"
 	"sync"
 	"sync/atomic"
+	"time"
 
 	golog "github.com/fclairamb/go-log"
 	"github.com/pojntfx/stfs/pkg/cache"
@@ -525,6 +526,20 @@ func (r *Rig) LocksHeld() []string {
 		out = append(out, "io")
 	}
 	return out
+}
+
+// LocksSettled waits for the goroutine that streams an open file to finish releasing the drive (File.Read returns as soon as
+// the last byte went through the pipe; the restore goroutine closes the reader right after) and then reports the locks held.
+func (r *Rig) LocksSettled() []string {
+	var held []string
+	for i := 0; i < 3000; i++ {
+		held = r.LocksHeld()
+		if len(held) == 0 {
+			return nil
+		}
+		time.Sleep(time.Millisecond)
+	}
+	return held
 }
 
 // BreakDrive makes OS-level opens of the drive fail until RestoreDrive.
